@@ -92,8 +92,12 @@ class Ctx:
         meta = os.path.join(self.scratch, "meta-" + name)
         out = os.path.join(self.scratch, name + ".out")
         workers = workers or NCPU
-        cmd = ["timeout", str(timeout), "java", "-XX:+UseParallelGC", "-Xss256m",
-               "-Xmx%dm" % int(os.environ.get("VERIF_TLC_HEAP_MB", "12000")),
+        cmd = ["timeout", str(timeout), "java", "-XX:+UseParallelGC", "-Xss256m"]
+        if workers <= 2:
+            cmd += ["-XX:ParallelGCThreads=2", "-Xmx3000m"]
+        else:
+            cmd += ["-XX:ParallelGCThreads=%d" % min(8, workers), "-Xmx%dm" % int(os.environ.get("VERIF_TLC_HEAP_MB", "12000"))]
+        cmd += [
                "-cp", "/opt/veriftools/tla/tla2tools.jar:/opt/veriftools/tla/CommunityModules-deps.jar",
                "tlc2.TLC", "-workers", str(workers), "-metadir", meta, "-config", cfgpath]
         if simulate:
@@ -130,7 +134,32 @@ class Ctx:
             raise Inconclusive("TLC run %s did not complete cleanly (rc=%s, %.0fs):\n%s" %
                                (name, p.returncode, secs, "\n".join(errs)))
         self.tlc_runs.append(info)
+        if os.environ.get("VERIF_VERBOSE"):
+            print("  tlc %-28s %6.1fs  %d states" % (name, secs, info["distinct"]), file=sys.stderr)
         return info
+
+    def tlc_trace(self, module, cfg, trace_file, chunks=8, timeout=3000):
+        """Trace validation: split the ndjson trace into chunks and validate them with
+        independent single-worker TLC runs in parallel.  Returns the output files."""
+        lines = open(trace_file).read().splitlines()
+        if not lines:
+            return []
+        chunks = max(1, min(chunks, len(lines) // 50 + 1))
+        size = (len(lines) + chunks - 1) // chunks
+        jobs = []
+        for n in range(chunks):
+            part = lines[n * size:(n + 1) * size]
+            if not part:
+                continue
+            path = "%s.part%d" % (trace_file, n)
+            open(path, "w").write("\n".join(part) + "\n")
+
+            def job(path=path, n=n):
+                info = self.tlc(module, cfg, name="%s_part%d" % (cfg, n), workers=1, timeout=timeout,
+                                env={"TRACE_FILE": path})
+                return info["out"]
+            jobs.append(job)
+        return self.parallel(jobs, width=min(len(jobs), max(1, NCPU - 2)))
 
     def parallel(self, jobs, width=2):
         """jobs: list of callables; run `width` at a time; re-raise first failure."""
@@ -143,7 +172,10 @@ class Ctx:
         cmd = [binary or self.harness_bin] + [str(a) for a in argv]
         e = dict(os.environ)
         e.update(env or {})
+        t = time.time()
         p = subprocess.run(cmd, cwd=self.scratch, capture_output=True, text=True, timeout=timeout, env=e)
+        if os.environ.get("VERIF_VERBOSE"):
+            print("  harness %-24s %6.1fs" % (argv[0], time.time() - t), file=sys.stderr)
         if p.returncode == 3:
             return p.stdout   # watchdog: hang recorded in the result file
         if p.returncode != 0:
